@@ -103,13 +103,15 @@ def run(prop: str, tier: str) -> int:
                     nviol += 1
                     what = {k2: o.get(k2) for k2 in ('ty', 'raw', 'accepted', 'exc', 'key', 'variants', 'listed_own', 'listed_elsewhere',
                                                      'listed_key_ok', 'listed_meta_ok', 'listed_loads_stored', 'recon_eq', 'pickle_detail',
-                                                     'listing_foreign', 'listing_error', 'foreign_sample') if k2 in o}
+                                                     'listing_foreign', 'listing_error', 'foreign_sample', 'relisted_meta_ok', 'relist_detail',
+                                                     'relist_exc') if k2 in o}
                     fid = f'{mine[0]}:{json.dumps([o.get("ty"), o.get("raw")], separators=(",", ":"))[:160]}'
                     if o.get('main_module_type'):
                         fid = f'{mine[0]}:copy of a task whose type is defined in the main module, sent to a spawned interpreter ({o["id"]})'
                     brief = {k2: what[k2] for k2 in ('listed_own', 'listed_elsewhere', 'listed_key_ok', 'listed_meta_ok', 'listed_loads_stored',
-                                                     'recon_eq', 'pickle_detail', 'listing_foreign', 'listing_error', 'exc') if k2 in what}
-                    rep.violation(fid, f'{mine}: {json.dumps(brief)[:260]}',
+                                                     'recon_eq', 'pickle_detail', 'listing_foreign', 'listing_error', 'exc', 'relisted_meta_ok',
+                                                     'relist_detail', 'relist_exc') if k2 in what}
+                    rep.violation(fid, f'{mine}: {json.dumps(brief)[:600]}',
                                   {'property': prop, 'kind': 'value-case', 'case': [o.get('ty'), o.get('raw')], 'fails': mine, 'observation': o})
         accepted = sum(1 for r in raw if r.get('accepted'))
         cov = {
